@@ -1141,3 +1141,258 @@ Proof.
   assert (Hb : b = canon (tree_of_msg m)) by congruence. rewrite Hb.
   rewrite <- (app_nil_r (canon _)). apply decode_canon; assumption.
 Qed.
+
+(* ------------------------------------------------------------------ *)
+(* partial runs: the two key loops, entry by entry                    *)
+
+(* started on [i], [m] behaves as [m'] started on [i'] (whatever the log and depth so far) *)
+Definition steps_to {A} (m : M A) (i : bytes) (m' : M A) (i' : bytes) : Prop :=
+  forall lg mx, exists lg' mx', m (mkSt i lg mx) = m' (mkSt i' lg' mx').
+
+Lemma steps_refl {A} (m : M A) i : steps_to m i m i.
+Proof. intros lg mx. exists lg, mx. reflexivity. Qed.
+
+Lemma steps_trans {A} (m1 m2 m3 : M A) i1 i2 i3 :
+  steps_to m1 i1 m2 i2 -> steps_to m2 i2 m3 i3 -> steps_to m1 i1 m3 i3.
+Proof.
+  intros H1 H2 lg mx. destruct (H1 lg mx) as [lg1 [mx1 E1]]. destruct (H2 lg1 mx1) as [lg2 [mx2 E2]].
+  exists lg2, mx2. congruence.
+Qed.
+
+Lemma steps_bind {A B} (m : M A) (f : A -> M B) i a r : parses m i a r -> steps_to (bind m f) i (f a) r.
+Proof.
+  intros H lg mx. destruct (H lg mx) as [lg1 [mx1 E]]. exists lg1, mx1. unfold bind. rewrite E. reflexivity.
+Qed.
+
+Lemma steps_bind_assoc {A B C} (m : M A) (f : A -> M B) (g : B -> M C) i a r :
+  parses (bind m f) i a r -> steps_to (bind m (fun x => bind (f x) g)) i (g a) r.
+Proof.
+  intros H lg mx. destruct (H lg mx) as [lg1 [mx1 E]]. exists lg1, mx1.
+  unfold bind in *. destruct (m (mkSt i lg mx)) as [s' [x| |]]; try discriminate. rewrite E. reflexivity.
+Qed.
+
+Lemma steps_parses {A} (m m' : M A) i i' a r : steps_to m i m' i' -> parses m' i' a r -> parses m i a r.
+Proof.
+  intros H1 H2 lg mx. destruct (H1 lg mx) as [lg1 [mx1 E1]]. destruct (H2 lg1 mx1) as [lg2 [mx2 E2]].
+  exists lg2, mx2. congruence.
+Qed.
+
+Lemma steps_fails {A} (m m' : M A) i i' : steps_to m i m' i' -> fails m' i' -> fails m i.
+Proof.
+  intros H1 H2 lg mx. destruct (H1 lg mx) as [lg1 [mx1 E1]]. destruct (H2 lg1 mx1) as [s' E2].
+  exists s'. congruence.
+Qed.
+
+Lemma resp_loop_steps F d W : forall es' seen fuel rest,
+  (length es' <= fuel)%nat ->
+  Forall (rentry_ok F d W) es' ->
+  NoDup (filter (in_keys known_resp) (map fst es')) ->
+  (forall k, In k seen -> ~ In k (map fst es')) ->
+  steps_to (resp_map_loop fuel F d (mask_ra seen W)) (ser_dict es' ++ rest)
+           (resp_map_loop (fuel - length es') F d (mask_ra (seen ++ filter (in_keys known_resp) (map fst es')) W)) rest.
+Proof.
+  induction es' as [|[k v] es' IH]; intros seen fuel rest Hfuel Hok Hnd Hseen.
+  - cbn [ser_dict flat_map app map filter length]. rewrite app_nil_r, Nat.sub_0_r. apply steps_refl.
+  - destruct fuel as [|fuel]; [cbn in Hfuel; lia|]. cbn [length Nat.sub].
+    inversion Hok as [|? ? [Hlen [Hutf [Hid [Hval [Hn4 [Hn6 [Htk Hunk]]]]]]] Hok']; subst.
+    cbn [fst snd] in *. cbn [ser_dict flat_map resp_map_loop]. fold (ser_dict es'). cbn [fst snd].
+    rewrite <- !app_assoc.
+    eapply steps_trans; [apply steps_bind; apply tok_str; exact Hlen|]. cbv beta iota.
+    eapply steps_trans; [apply steps_bind; cbn [str_from]; rewrite Hutf; apply parses_ret|].
+    cbn [map fst filter] in Hnd |- *.
+    assert (Hk_notseen : has k seen = false).
+    { apply has_false. intros Hin. apply (Hseen k Hin). left. reflexivity. }
+    destruct (bytes_eqb k k_id) eqn:E1; [apply bytes_eqb_eq in E1; subst k|].
+    { destruct (Hid eq_refl) as [x [HW Hp]].
+      change (in_keys known_resp k_id) with true in Hnd |- *. inversion Hnd as [|? ? Hnin Hnd']; subst.
+      replace (is_some (ra_id (mask_ra seen W))) with false
+        by (unfold mask_ra; cbn [ra_id]; rewrite Hk_notseen; reflexivity).
+      eapply steps_trans; [apply steps_bind_assoc; apply Hp|].
+      replace (mkRA (Some x) (ra_values (mask_ra seen W)) (ra_nodes (mask_ra seen W)) (ra_nodes6 (mask_ra seen W))
+                    (ra_token (mask_ra seen W))) with (mask_ra (seen ++ [k_id]) W)
+        by (mask_step Hk_notseen; rewrite HW; reflexivity).
+      replace (seen ++ k_id :: filter (in_keys known_resp) (map fst es'))
+        with ((seen ++ [k_id]) ++ filter (in_keys known_resp) (map fst es')) by (rewrite <- app_assoc; reflexivity).
+      apply IH; [cbn in Hfuel; lia | exact Hok' | exact Hnd' |].
+      intros k' Hk' Hin. apply in_app_or in Hk' as [Hk'|[<-|[]]].
+      - apply (Hseen k' Hk'). right. exact Hin.
+      - apply Hnin. apply filter_In. split; [exact Hin | reflexivity]. }
+    destruct (bytes_eqb k k_values) eqn:E2; [apply bytes_eqb_eq in E2; subst k|].
+    { destruct (Hval eq_refl) as [x [HW Hp]].
+      change (in_keys known_resp k_values) with true in Hnd |- *. inversion Hnd as [|? ? Hnin Hnd']; subst.
+      replace (is_some (ra_values (mask_ra seen W))) with false
+        by (unfold mask_ra; cbn [ra_values]; rewrite Hk_notseen; reflexivity).
+      eapply steps_trans; [apply steps_bind_assoc; apply Hp|].
+      replace (mkRA (ra_id (mask_ra seen W)) (Some x) (ra_nodes (mask_ra seen W)) (ra_nodes6 (mask_ra seen W))
+                    (ra_token (mask_ra seen W))) with (mask_ra (seen ++ [k_values]) W)
+        by (mask_step Hk_notseen; rewrite HW; reflexivity).
+      replace (seen ++ k_values :: filter (in_keys known_resp) (map fst es'))
+        with ((seen ++ [k_values]) ++ filter (in_keys known_resp) (map fst es')) by (rewrite <- app_assoc; reflexivity).
+      apply IH; [cbn in Hfuel; lia | exact Hok' | exact Hnd' |].
+      intros k' Hk' Hin. apply in_app_or in Hk' as [Hk'|[<-|[]]].
+      - apply (Hseen k' Hk'). right. exact Hin.
+      - apply Hnin. apply filter_In. split; [exact Hin | reflexivity]. }
+    destruct (bytes_eqb k k_nodes) eqn:E3; [apply bytes_eqb_eq in E3; subst k|].
+    { destruct (Hn4 eq_refl) as [x [HW Hp]].
+      change (in_keys known_resp k_nodes) with true in Hnd |- *. inversion Hnd as [|? ? Hnin Hnd']; subst.
+      replace (is_some (ra_nodes (mask_ra seen W))) with false
+        by (unfold mask_ra; cbn [ra_nodes]; rewrite Hk_notseen; reflexivity).
+      eapply steps_trans; [apply steps_bind_assoc; apply Hp|].
+      replace (mkRA (ra_id (mask_ra seen W)) (ra_values (mask_ra seen W)) (Some x) (ra_nodes6 (mask_ra seen W))
+                    (ra_token (mask_ra seen W))) with (mask_ra (seen ++ [k_nodes]) W)
+        by (mask_step Hk_notseen; rewrite HW; reflexivity).
+      replace (seen ++ k_nodes :: filter (in_keys known_resp) (map fst es'))
+        with ((seen ++ [k_nodes]) ++ filter (in_keys known_resp) (map fst es')) by (rewrite <- app_assoc; reflexivity).
+      apply IH; [cbn in Hfuel; lia | exact Hok' | exact Hnd' |].
+      intros k' Hk' Hin. apply in_app_or in Hk' as [Hk'|[<-|[]]].
+      - apply (Hseen k' Hk'). right. exact Hin.
+      - apply Hnin. apply filter_In. split; [exact Hin | reflexivity]. }
+    destruct (bytes_eqb k k_nodes6) eqn:E4; [apply bytes_eqb_eq in E4; subst k|].
+    { destruct (Hn6 eq_refl) as [x [HW Hp]].
+      change (in_keys known_resp k_nodes6) with true in Hnd |- *. inversion Hnd as [|? ? Hnin Hnd']; subst.
+      replace (is_some (ra_nodes6 (mask_ra seen W))) with false
+        by (unfold mask_ra; cbn [ra_nodes6]; rewrite Hk_notseen; reflexivity).
+      eapply steps_trans; [apply steps_bind_assoc; apply Hp|].
+      replace (mkRA (ra_id (mask_ra seen W)) (ra_values (mask_ra seen W)) (ra_nodes (mask_ra seen W)) (Some x)
+                    (ra_token (mask_ra seen W))) with (mask_ra (seen ++ [k_nodes6]) W)
+        by (mask_step Hk_notseen; rewrite HW; reflexivity).
+      replace (seen ++ k_nodes6 :: filter (in_keys known_resp) (map fst es'))
+        with ((seen ++ [k_nodes6]) ++ filter (in_keys known_resp) (map fst es')) by (rewrite <- app_assoc; reflexivity).
+      apply IH; [cbn in Hfuel; lia | exact Hok' | exact Hnd' |].
+      intros k' Hk' Hin. apply in_app_or in Hk' as [Hk'|[<-|[]]].
+      - apply (Hseen k' Hk'). right. exact Hin.
+      - apply Hnin. apply filter_In. split; [exact Hin | reflexivity]. }
+    destruct (bytes_eqb k k_token) eqn:E5; [apply bytes_eqb_eq in E5; subst k|].
+    { destruct (Htk eq_refl) as [x [HW Hp]].
+      change (in_keys known_resp k_token) with true in Hnd |- *. inversion Hnd as [|? ? Hnin Hnd']; subst.
+      replace (is_some (ra_token (mask_ra seen W))) with false
+        by (unfold mask_ra; cbn [ra_token]; rewrite Hk_notseen; reflexivity).
+      eapply steps_trans; [apply steps_bind_assoc; apply Hp|].
+      replace (mkRA (ra_id (mask_ra seen W)) (ra_values (mask_ra seen W)) (ra_nodes (mask_ra seen W))
+                    (ra_nodes6 (mask_ra seen W)) (Some x)) with (mask_ra (seen ++ [k_token]) W)
+        by (mask_step Hk_notseen; rewrite HW; reflexivity).
+      replace (seen ++ k_token :: filter (in_keys known_resp) (map fst es'))
+        with ((seen ++ [k_token]) ++ filter (in_keys known_resp) (map fst es')) by (rewrite <- app_assoc; reflexivity).
+      apply IH; [cbn in Hfuel; lia | exact Hok' | exact Hnd' |].
+      intros k' Hk' Hin. apply in_app_or in Hk' as [Hk'|[<-|[]]].
+      - apply (Hseen k' Hk'). right. exact Hin.
+      - apply Hnin. apply filter_In. split; [exact Hin | reflexivity]. }
+    (* an unknown key: its value is skipped *)
+    assert (Hunk' : in_keys known_resp k = false).
+    { unfold in_keys, known_resp. cbn [existsb]. rewrite E1, E2, E3, E4, E5. reflexivity. }
+    rewrite Hunk' in Hnd |- *. destruct (Hunk Hunk') as [Hwf Hsz].
+    eapply steps_trans; [apply steps_bind; apply p_any; assumption|].
+    apply IH; [cbn in Hfuel; lia | exact Hok' | exact Hnd |].
+    intros k' Hk' Hin. apply (Hseen k' Hk'). right. exact Hin.
+Qed.
+
+Lemma raw_loop_steps F W : forall es' seen fuel rest,
+  (length es' <= fuel)%nat ->
+  Forall (tentry_ok F W) es' ->
+  NoDup (filter (in_keys known_top) (map fst es')) ->
+  (forall k, In k seen -> ~ In k (map fst es')) ->
+  steps_to (raw_map_loop fuel F (mask_raw seen W)) (ser_dict es' ++ rest)
+           (raw_map_loop (fuel - length es') F (mask_raw (seen ++ filter (in_keys known_top) (map fst es')) W)) rest.
+Proof.
+  induction es' as [|[k v] es' IH]; intros seen fuel rest Hfuel Hok Hnd Hseen.
+  - cbn [ser_dict flat_map app map filter length]. rewrite app_nil_r, Nat.sub_0_r. apply steps_refl.
+  - destruct fuel as [|fuel]; [cbn in Hfuel; lia|]. cbn [length Nat.sub].
+    inversion Hok as [|? ? [Hlen [Hutf [H_k_t [H_k_y [H_k_q [H_k_a [H_k_r [H_k_e Hunk]]]]]]]] Hok']; subst.
+    cbn [fst snd] in *. cbn [ser_dict flat_map raw_map_loop]. fold (ser_dict es'). cbn [fst snd].
+    rewrite <- !app_assoc.
+    eapply steps_trans; [apply steps_bind; apply tok_str; exact Hlen|]. cbv beta iota.
+    eapply steps_trans; [apply steps_bind; cbn [str_from]; rewrite Hutf; apply parses_ret|].
+    cbn [map fst filter] in Hnd |- *.
+    assert (Hk_notseen : has k seen = false).
+    { apply has_false. intros Hin. apply (Hseen k Hin). left. reflexivity. }
+    destruct (bytes_eqb k k_t) eqn:E1; [apply bytes_eqb_eq in E1; subst k|].
+    { destruct (H_k_t eq_refl) as [x [HW Hp]].
+      change (in_keys known_top k_t) with true in Hnd |- *. inversion Hnd as [|? ? Hnin Hnd']; subst.
+      replace (is_some (w_t (mask_raw seen W))) with false
+        by (unfold mask_raw; cbn [w_t]; rewrite Hk_notseen; reflexivity).
+      eapply steps_trans; [apply steps_bind_assoc; apply Hp|].
+      replace (mkRaw (Some x) (w_y (mask_raw seen W)) (w_q (mask_raw seen W)) (w_a (mask_raw seen W)) (w_r (mask_raw seen W)) (w_e (mask_raw seen W))) with (mask_raw (seen ++ [k_t]) W)
+        by (mask_step_raw Hk_notseen; rewrite HW; reflexivity).
+      replace (seen ++ k_t :: filter (in_keys known_top) (map fst es'))
+        with ((seen ++ [k_t]) ++ filter (in_keys known_top) (map fst es')) by (rewrite <- app_assoc; reflexivity).
+      apply IH; [cbn in Hfuel; lia | exact Hok' | exact Hnd' |].
+      intros k' Hk' Hin. apply in_app_or in Hk' as [Hk'|[<-|[]]].
+      - apply (Hseen k' Hk'). right. exact Hin.
+      - apply Hnin. apply filter_In. split; [exact Hin | reflexivity]. }
+    destruct (bytes_eqb k k_y) eqn:E2; [apply bytes_eqb_eq in E2; subst k|].
+    { destruct (H_k_y eq_refl) as [x [HW Hp]].
+      change (in_keys known_top k_y) with true in Hnd |- *. inversion Hnd as [|? ? Hnin Hnd']; subst.
+      replace (is_some (w_y (mask_raw seen W))) with false
+        by (unfold mask_raw; cbn [w_y]; rewrite Hk_notseen; reflexivity).
+      eapply steps_trans; [apply steps_bind_assoc; apply Hp|].
+      replace (mkRaw (w_t (mask_raw seen W)) (Some x) (w_q (mask_raw seen W)) (w_a (mask_raw seen W)) (w_r (mask_raw seen W)) (w_e (mask_raw seen W))) with (mask_raw (seen ++ [k_y]) W)
+        by (mask_step_raw Hk_notseen; rewrite HW; reflexivity).
+      replace (seen ++ k_y :: filter (in_keys known_top) (map fst es'))
+        with ((seen ++ [k_y]) ++ filter (in_keys known_top) (map fst es')) by (rewrite <- app_assoc; reflexivity).
+      apply IH; [cbn in Hfuel; lia | exact Hok' | exact Hnd' |].
+      intros k' Hk' Hin. apply in_app_or in Hk' as [Hk'|[<-|[]]].
+      - apply (Hseen k' Hk'). right. exact Hin.
+      - apply Hnin. apply filter_In. split; [exact Hin | reflexivity]. }
+    destruct (bytes_eqb k k_q) eqn:E3; [apply bytes_eqb_eq in E3; subst k|].
+    { destruct (H_k_q eq_refl) as [x [HW Hp]].
+      change (in_keys known_top k_q) with true in Hnd |- *. inversion Hnd as [|? ? Hnin Hnd']; subst.
+      replace (is_some (w_q (mask_raw seen W))) with false
+        by (unfold mask_raw; cbn [w_q]; rewrite Hk_notseen; reflexivity).
+      eapply steps_trans; [apply steps_bind_assoc; apply Hp|].
+      replace (mkRaw (w_t (mask_raw seen W)) (w_y (mask_raw seen W)) (Some x) (w_a (mask_raw seen W)) (w_r (mask_raw seen W)) (w_e (mask_raw seen W))) with (mask_raw (seen ++ [k_q]) W)
+        by (mask_step_raw Hk_notseen; rewrite HW; reflexivity).
+      replace (seen ++ k_q :: filter (in_keys known_top) (map fst es'))
+        with ((seen ++ [k_q]) ++ filter (in_keys known_top) (map fst es')) by (rewrite <- app_assoc; reflexivity).
+      apply IH; [cbn in Hfuel; lia | exact Hok' | exact Hnd' |].
+      intros k' Hk' Hin. apply in_app_or in Hk' as [Hk'|[<-|[]]].
+      - apply (Hseen k' Hk'). right. exact Hin.
+      - apply Hnin. apply filter_In. split; [exact Hin | reflexivity]. }
+    destruct (bytes_eqb k k_a) eqn:E4; [apply bytes_eqb_eq in E4; subst k|].
+    { destruct (H_k_a eq_refl) as [x [HW Hp]].
+      change (in_keys known_top k_a) with true in Hnd |- *. inversion Hnd as [|? ? Hnin Hnd']; subst.
+      replace (is_some (w_a (mask_raw seen W))) with false
+        by (unfold mask_raw; cbn [w_a]; rewrite Hk_notseen; reflexivity).
+      eapply steps_trans; [apply steps_bind_assoc; apply Hp|].
+      replace (mkRaw (w_t (mask_raw seen W)) (w_y (mask_raw seen W)) (w_q (mask_raw seen W)) (Some x) (w_r (mask_raw seen W)) (w_e (mask_raw seen W))) with (mask_raw (seen ++ [k_a]) W)
+        by (mask_step_raw Hk_notseen; rewrite HW; reflexivity).
+      replace (seen ++ k_a :: filter (in_keys known_top) (map fst es'))
+        with ((seen ++ [k_a]) ++ filter (in_keys known_top) (map fst es')) by (rewrite <- app_assoc; reflexivity).
+      apply IH; [cbn in Hfuel; lia | exact Hok' | exact Hnd' |].
+      intros k' Hk' Hin. apply in_app_or in Hk' as [Hk'|[<-|[]]].
+      - apply (Hseen k' Hk'). right. exact Hin.
+      - apply Hnin. apply filter_In. split; [exact Hin | reflexivity]. }
+    destruct (bytes_eqb k k_r) eqn:E5; [apply bytes_eqb_eq in E5; subst k|].
+    { destruct (H_k_r eq_refl) as [x [HW Hp]].
+      change (in_keys known_top k_r) with true in Hnd |- *. inversion Hnd as [|? ? Hnin Hnd']; subst.
+      replace (is_some (w_r (mask_raw seen W))) with false
+        by (unfold mask_raw; cbn [w_r]; rewrite Hk_notseen; reflexivity).
+      eapply steps_trans; [apply steps_bind_assoc; apply Hp|].
+      replace (mkRaw (w_t (mask_raw seen W)) (w_y (mask_raw seen W)) (w_q (mask_raw seen W)) (w_a (mask_raw seen W)) (Some x) (w_e (mask_raw seen W))) with (mask_raw (seen ++ [k_r]) W)
+        by (mask_step_raw Hk_notseen; rewrite HW; reflexivity).
+      replace (seen ++ k_r :: filter (in_keys known_top) (map fst es'))
+        with ((seen ++ [k_r]) ++ filter (in_keys known_top) (map fst es')) by (rewrite <- app_assoc; reflexivity).
+      apply IH; [cbn in Hfuel; lia | exact Hok' | exact Hnd' |].
+      intros k' Hk' Hin. apply in_app_or in Hk' as [Hk'|[<-|[]]].
+      - apply (Hseen k' Hk'). right. exact Hin.
+      - apply Hnin. apply filter_In. split; [exact Hin | reflexivity]. }
+    destruct (bytes_eqb k k_e) eqn:E6; [apply bytes_eqb_eq in E6; subst k|].
+    { destruct (H_k_e eq_refl) as [x [HW Hp]].
+      change (in_keys known_top k_e) with true in Hnd |- *. inversion Hnd as [|? ? Hnin Hnd']; subst.
+      replace (is_some (w_e (mask_raw seen W))) with false
+        by (unfold mask_raw; cbn [w_e]; rewrite Hk_notseen; reflexivity).
+      eapply steps_trans; [apply steps_bind_assoc; apply Hp|].
+      replace (mkRaw (w_t (mask_raw seen W)) (w_y (mask_raw seen W)) (w_q (mask_raw seen W)) (w_a (mask_raw seen W)) (w_r (mask_raw seen W)) (Some x)) with (mask_raw (seen ++ [k_e]) W)
+        by (mask_step_raw Hk_notseen; rewrite HW; reflexivity).
+      replace (seen ++ k_e :: filter (in_keys known_top) (map fst es'))
+        with ((seen ++ [k_e]) ++ filter (in_keys known_top) (map fst es')) by (rewrite <- app_assoc; reflexivity).
+      apply IH; [cbn in Hfuel; lia | exact Hok' | exact Hnd' |].
+      intros k' Hk' Hin. apply in_app_or in Hk' as [Hk'|[<-|[]]].
+      - apply (Hseen k' Hk'). right. exact Hin.
+      - apply Hnin. apply filter_In. split; [exact Hin | reflexivity]. }
+    assert (Hunk' : in_keys known_top k = false).
+    { unfold in_keys, known_top. cbn [existsb]. rewrite E1, E2, E3, E4, E5, E6. reflexivity. }
+    rewrite Hunk' in Hnd |- *. destruct (Hunk Hunk') as [Hwf Hsz].
+    eapply steps_trans; [apply steps_bind; apply p_any; assumption|].
+    apply IH; [cbn in Hfuel; lia | exact Hok' | exact Hnd |].
+    intros k' Hk' Hin. apply (Hseen k' Hk'). right. exact Hin.
+Qed.
